@@ -371,6 +371,11 @@ Proof.
   intros [Hm Hc] HE. unfold select.
   assert (Hf : find t rq post s = find t rq post s'); [|rewrite Hf; reflexivity].
   unfold find. unfold reads_mv_target in Hm. unfold reads_cap_target in Hc.
+  destruct (t_rx t) as [p|].
+  { destruct (is_single_var (t_var t)) eqn:Hsv; [reflexivity|]. f_equal.
+    apply (coll_all_E a b); auto.
+    - intros [Hv|Hv]; rewrite Hv in Hsv; discriminate.
+    - intros Hv; rewrite Hv in Hc; auto. }
   destruct (t_key t) as [k|].
   - destruct (is_single_var (t_var t)) eqn:Hsv; [reflexivity|].
     destruct (t_var t) eqn:Hv; try reflexivity; try discriminate.
@@ -388,8 +393,10 @@ Proof.
   unfold multi_target, select. destruct (t_count t); [cbn; lia|]. intros H.
   eapply Nat.le_trans; [apply filter_len|].
   unfold find. destruct (is_single_var (t_var t)) eqn:Hs.
-  - destruct (t_key t); [cbn; lia|]. destruct (t_var t); try discriminate; cbn; lia.
-  - destruct (t_var t); try discriminate; destruct (t_key t); try discriminate.
+  - destruct (t_rx t); [cbn; lia|].
+    destruct (t_key t); [cbn; lia|]. destruct (t_var t); try discriminate; cbn; lia.
+  - destruct (t_rx t); [discriminate|].
+    destruct (t_var t); try discriminate; destruct (t_key t); try discriminate.
     destruct (st_get _ _); cbn; lia.
 Qed.
 
@@ -755,7 +762,7 @@ Proof. intros n l. unfold ord_mask. destruct (N.testbit _ _); [apply Permutation
 (* the full statement is false: witnesses (known finding F26)                            *)
 (* ------------------------------------------------------------------------------------- *)
 
-Definition tgt (v : var) : target := mkT v None [] false.
+Definition tgt (v : var) : target := mkT v None [] false None.
 Definition req_ab : request := mkReq [(str "a"%string, str "x"%string); (str "b"%string, str "y"%string)] [] [] (str "GET"%string) (str "a=x&b=y"%string).
 
 (* SecRule ARGS "@rx ." "id:1,phase:1,pass,chain"   SecRule MATCHED_VAR "@streq x" *)
@@ -770,7 +777,7 @@ Definition cfg_f26_setvar : list rule :=
 (* SecRule ARGS "@rx ." "id:1,phase:1,pass,capture"   SecRule TX:0 "@streq x" "id:2,phase:2,deny,status:403" *)
 Definition cfg_f26_capture : list rule :=
   [mkR 1 1 (mkL [tgt VArgs] [] ORxDot false true []) [] None None;
-   mkR 2 2 (mkL [mkT VTx (Some (str "0"%string)) [] false] [] (OStreq (str "x"%string)) false false []) [] (Some 403) None].
+   mkR 2 2 (mkL [mkT VTx (Some (str "0"%string)) [] false None] [] (OStreq (str "x"%string)) false false []) [] (Some 403) None].
 
 Lemma obs_equiv_fired_length a b : obs_equiv a b -> List.length (o_fired a) = List.length (o_fired b).
 Proof. intros (_ & H & _). induction H; cbn; congruence. Qed.
@@ -835,10 +842,10 @@ Definition cfg_anomaly : list rule :=
              [mkL [tgt VReqMethod] [] (OStreq (str "POST"%string)) false false [ASetvar (str "hits"%string) [MLit (str "+1"%string)]];
               mkL [tgt VMatchedVar] [] (OBeginsWith (str "PO"%string)) false false [ASetvar (str "method"%string) [MMatchedVar]]]
              None None;
-   mkR 930 2 (mkL [mkT VArgs (Some (str "a"%string)) [] true] [] (OGe 3) false false
+   mkR 930 2 (mkL [mkT VArgs (Some (str "a"%string)) [] true None] [] (OGe 3) false false
                [ASetvar (str "score"%string) [MLit (str "+2"%string)]]) [] None None;
-   mkR 949 2 (mkL [mkT VTx (Some (str "score"%string)) [] false] [] (OGe 10) false false []) [] (Some 403) (Some 2);
-   mkR 980 5 (mkL [mkT VTx (Some (str "hits"%string)) [] false] [] (OGe 1) false false
+   mkR 949 2 (mkL [mkT VTx (Some (str "score"%string)) [] false None] [] (OGe 10) false false []) [] (Some 403) (Some 2);
+   mkR 980 5 (mkL [mkT VTx (Some (str "hits"%string)) [] false None] [] (OGe 1) false false
                [ASetvar (str "logged"%string) [MLit (str "1"%string)]]) [] None None].
 
 Example anomaly_scoring_is_order_insensitive : order_insensitive cfg_anomaly = true.
